@@ -404,7 +404,8 @@ func c01DenseLong(w *mon.W, idx int) {
 func c01Huge(w *mon.W, _ int) {
 	for _, nw := range []int{1<<25 - 1, 1 << 25} {
 		n := int64(nw) * 64
-		words := make([]uint64, nw)
+		words, release := hugeZeroWords(nw)
+		defer release()
 		ones := []int64{3, 64, 127, 1 << 20, 1<<30 + 5, n - 4000, n - 129, n - 128, n - 65, n - 64, n - 2, n - 1}
 		for _, p := range ones {
 			words[p>>6] |= 1 << uint(p&63)
